@@ -15,6 +15,7 @@ known-finding class; they are still compared by K2 (any change of behaviour is d
 from __future__ import annotations
 
 import json
+import re
 import random
 import time
 from dataclasses import dataclass, field
@@ -62,6 +63,41 @@ def regenerate(broken):
     except Exception as e:
         broken.append(Broken("translator", "G2 tr_optables", str(e)[:1500]))
     return meta
+
+
+def sym_lookup(known_sym: dict, c: str):
+    """exact symptom class, else a listed pattern with `*` (e.g. linear:DPure:*:raw=0)"""
+    if c in known_sym:
+        return c
+    import fnmatch
+    for pat in known_sym:
+        if "*" in pat and fnmatch.fnmatchcase(c, pat):
+            return pat
+    return None
+
+
+def cause_ok(kf: dict, code: str, ast_txt: str, flags: int) -> bool:
+    """A symptom-class finding is recognised only where its recorded CAUSE is present in the source program: the same
+    symptom with another cause is a different violation and is reported."""
+    causes = kf.get("cause")
+    if not causes:
+        return True
+    for c in causes:
+        if c == "dead-arm" and flags >= 0 and (flags >> 18) & 1:          # the model removed a declaration with a dead ?: arm
+            return True
+        if c == "const-cond" and re.search(r"\(ECond \((EOp \(ONum|ECast \[[^\]]*\] \(EOp \(ONum|EBin \w+ \(EOp \(ONum[^()]*\)\) \(EOp \(ONum)", ast_txt):
+            return True
+        if c == "sizeof" and ("USizeofE" in ast_txt or "ECall \"sizeof\"" in ast_txt):
+            return True
+        if c == "stmt-expr" and "EStmtExpr" in ast_txt:
+            return True
+        if c == "rw-only-written":
+            for m in set(re.findall(r"\b[RCPM][xyz]{1,2}V\b", code)):
+                uses = len(re.findall(r"\b" + m + r"\b", code))
+                writes = len(re.findall(r"\b" + m + r"\s*=(?!=)", code))
+                if uses == writes:
+                    return True
+    return False
 
 
 def oracle_fails(v: dict, oracles) -> list[str]:
@@ -206,9 +242,11 @@ def run(spec: Spec, tier: str) -> int:
                     classes.add("malformed:" + ("invalid-identifier" if "invalid C identifiers" in o else "float-literal" if ".0" in o or "bad token" in o else "other"))
                 elif o not in ("wf", "linear"):
                     classes.add("other:" + o)
-            if classes and all(c in known_sym for c in classes):
+            ast_txt = (k2r.results.get(jid) or {}).get("ast") or ""
+            matched = {c: sym_lookup(known_sym, c) for c in classes}
+            if classes and all(matched[c] is not None and cause_ok(known_sym[matched[c]], code, ast_txt, v.get("flags", 0)) for c in classes):
                 for c in classes:
-                    seen_sym.setdefault(c, code)
+                    seen_sym.setdefault(matched[c], code)
             else:
                 v = dict(v)
                 v["symptoms"] = sorted(classes)
